@@ -430,7 +430,7 @@ def _debruijn_image(na, w, rot):
 
 
 def _windows_covered(img, w):
-    ny, nx = img.shape
+    nx = img.shape[1]
     seen = set()
     for c in range(nx - w + 1):
         seen.add(img[:, c:c + w].astype(np.int8).tobytes())
